@@ -137,7 +137,7 @@ func init() {
 		runNodeMessage(cr)
 		cr.explanation = "BaseNodeService.ProcessMessage (real fsmservice, repositories, LevelDBState, FSM stack) executed from SSA on one symbolic board message against a store holding the round in each representative reachable state; obligation: not (registered sender and Verify(PubKeys[sender], Data, Signature)) => error and byte-identical store and board (all rounds, operation pool, tombstones, signatures)."
 	}}
-	checkDefs["C18"] = &checkDef{level: "other", pkgs: []string{nodePkg}, run: func(cr *CheckRun) {
+	checkDefs["C18"] = &checkDef{level: "other", pkgs: []string{nodePkg, reqPkg}, run: func(cr *CheckRun) {
 		cr.owner = func(l string) bool { return hasPrefixAny(l, "rejected-durable-noop", "nopanic") }
 		cr.groupKey = func(v Violation) string {
 			if strings.HasPrefix(v.Label, "rejected-durable-noop") {
@@ -149,11 +149,171 @@ func init() {
 			return v.Label + " @ " + v.Case
 		}
 		runNodeMessage(cr)
+		// expansion of signing tasks with symbolic ranges (the node-level jobs above use no baked ranges)
+		var tj []Job
+		maxTasks := 1
+		if cr.Tier == "thorough" {
+			maxTasks = 2
+		}
+		for nt := 1; nt <= maxTasks; nt++ {
+			tj = append(tj, Job{Pkg: reqPkg, Fn: "VF_C18_Tasks", Opts: defaultOpts(), Tag: fmt.Sprintf("tasks=%d", nt), Case: "TasksToMessages",
+				Params: map[string]string{"ntasks": fmt.Sprint(nt)}})
+		}
+		tr := cr.Pool.Run(tj)
+		cr.absorb(tj, tr)
+		cr.bounds["signing_tasks"] = "1 task (thorough: 1..2), each explicit (payload 0..1 bytes) or a baked range with symbolic int bounds: any range starting outside the list, ranges of length <= 2 starting in the first 64 or last 2 positions"
 		cr.explanation = "No Go run-time panic on any feasible path of ProcessMessage for any event, any decoded request value, any sender, in each representative reachable round state (panics are found by the executor as feasible panic paths and replayed natively); a rejected message leaves every durable blob except the offset byte-identical."
 	}}
 	checkDefs["C10"] = &checkDef{level: "other", pkgs: []string{nodePkg}, run: func(cr *CheckRun) {
 		cr.owner = func(l string) bool { return hasPrefixAny(l, "sender-is-participant", "bound-to-round-and-event") }
 		runNodeMessage(cr)
 		cr.explanation = "Same harness as C09 with sender and claimed participant independent and genuinely signed payloads: (1) an accepted contribution naming participant P must be sent by P; (2) a genuinely signed payload re-posted under another event name or round id must have no effect."
+	}}
+}
+
+func init() {
+	checkDefs["C15"] = &checkDef{level: "other", pkgs: []string{nodePkg}, run: func(cr *CheckRun) {
+		opts := defaultOpts()
+		opts.Witness = true
+		maxpool := 2
+		var jobs []Job
+		for np := 0; np <= maxpool; np++ {
+			jobs = append(jobs, Job{Pkg: nodePkg, Fn: "VF_C15_Submit", Opts: opts, Tag: fmt.Sprintf("pool=%d", np), Case: "submit",
+				Params: map[string]string{"npool": fmt.Sprint(np), "tag": fmt.Sprintf("c15_%d", np)}})
+		}
+		jobs = append(jobs, Job{Pkg: nodePkg, Fn: "VF_C15_RoundTrip", Opts: opts, Tag: "roundtrip", Case: "roundtrip", Params: map[string]string{"tag": "c15rt"}})
+		res := cr.Pool.Run(jobs)
+		cr.absorb(jobs, res)
+		for i, jr := range res {
+			for _, p := range jr.Paths {
+				if p.Witness != nil && len(cr.samples) < 4 && len(p.Decisions) > 3 {
+					cr.samples = append(cr.samples, map[string]interface{}{"harness": jobs[i].Fn, "params": jobs[i].Params, "submitted": trimModel(p.Witness, "sub.")})
+				}
+			}
+		}
+		cr.explanation = "ProcessOperation/executeOperation/Operation.Equal/NewOperation and the real operation repository executed from SSA: pool of 0..2 operations issued through NewOperation (symbolic payload/type), one submitted result with every field an independent symbolic value; obligations: a send requires a pending operation equal in ID, type and payload; the sent messages are the submitted ones re-attributed to and signed by the node; the operation is retired once, a second submission fails before any send, a tombstoned id never becomes pending again; Operation JSON round trip into Operation and into the API form."
+		cr.bounds["pool"] = "0..2 pending operations, 0..2 result messages, 1-byte payloads (content symbolic), ids/types/events unbounded symbolic strings"
+		cr.bounds["outside"] = "results of type operation_processed_successfully (reinit hand-over, covered by C20), HTTP binding/validation and the reflection-based form->DTO mapper"
+		cr.assume = append(cr.assume, "md5/hex/base64 injective (operation ids do not collide)", "ed25519 contract: Verify(pub(sk), m, Sign(sk,m))", "LevelDB = atomic map; encoding/json = typed structural codec")
+		cr.trusted = append(cr.trusted, "gosx SSA->SMT executor", "z3 4.8.12")
+	}}
+	checkDefs["C08"] = &checkDef{level: "other", pkgs: []string{nodePkg}, run: func(cr *CheckRun) {
+		cr.owner = func(l string) bool { return hasPrefixAny(l, "round-isolated", "clock-free", "foreign-recipient-noop", "batching-free") }
+		runNodeMessage(cr)
+		cr.explanation = "Round isolation: in every path of the one-message harness (all events, senders, payloads, representative round states) a message carrying one round id leaves the dump and the signature store of every other round byte-identical."
+	}}
+}
+
+func init() {
+	checkDefs["C13"] = &checkDef{level: "fault_enumeration", pkgs: []string{nodePkg}, run: func(cr *CheckRun) {
+		reps := nodeCommon(cr)
+		opts := defaultOpts()
+		var jobs []Job
+		for _, a := range reps {
+			if strings.HasPrefix(a, "__idle") {
+				continue
+			}
+			for _, ev := range fsmEvents {
+				jobs = append(jobs, Job{Pkg: nodePkg, Fn: "VF_C13_Crash", Opts: opts, Tag: "state=" + a + " event=" + ev,
+					Case:   "state=" + absState(a) + " event=" + ev,
+					Params: map[string]string{"abs": a, "event": ev, "norange": "1", "maxn": "2", "tag": fmt.Sprintf("c13_%d", len(jobs))}})
+			}
+		}
+		res := cr.Pool.Run(jobs)
+		cr.absorb(jobs, res)
+		points := map[string]int{}
+		for i, jr := range res {
+			for _, p := range jr.Paths {
+				for _, r := range p.Records {
+					if r.Key == "crash" && len(r.Vals) == 2 {
+						points[r.Vals[0]+"/"+r.Vals[1]]++
+						if len(cr.samples) < 6 && r.Vals[0] != "0" {
+							cr.samples = append(cr.samples, map[string]interface{}{"round_state": jobs[i].Params["abs"], "message_event": jobs[i].Params["event"], "crash_after_effect": r.Vals[0], "effects_in_crash_free_run": r.Vals[1]})
+						}
+					}
+				}
+			}
+		}
+		cr.extra["crash_points_by_k_over_effects"] = points
+		cr.groupKey = func(v Violation) string { return v.Label }
+		cr.explanation = "Real Poll/ProcessMessage/processMessage and the real repositories and services executed from SSA; one genuinely signed board message with a symbolic payload per (round state, event); the process is killed after the k-th durable effect (state write, offset write, board send) for every k, restarted on the same state store (all services constructed afresh) and polled again; the public state (round projection, pending operations, signatures, offset) must equal that of the crash-free run. k=0 is a clean stop/start."
+		cr.bounds["crashes"] = "one crash per run, every position between the durable effects of handling one message; one message per run"
+		cr.bounds["outside"] = "torn writes inside LevelDB, two crashes, crashes while handling API requests, n > 2"
+	}}
+}
+
+func init() {
+	checkDefs["C14"] = &checkDef{level: "model_checking", pkgs: []string{nodePkg}, run: func(cr *CheckRun) {
+		saved := cr.owner
+		cr.owner = func(string) bool { return false }
+		g := exploreFSM(cr, 2, false)
+		cr.owner = saved
+		// message kinds that create work for the operator: the last missing contribution of a phase, a signing proposal
+		want := map[string]string{
+			"state_sig_proposal_await_participants_confirmations": "event_sig_proposal_confirm_by_participant",
+			"state_dkg_commits_await_confirmations":               "event_dkg_commit_confirm_received",
+			"stage_signing_idle":                                  "event_signing_start",
+		}
+		if cr.Tier == "thorough" {
+			want["state_dkg_deals_await_confirmations"] = "event_dkg_deal_confirm_received"
+			want["state_dkg_responses_await_confirmations"] = "event_dkg_response_confirm_received"
+			want["state_dkg_master_key_await_confirmations"] = "event_dkg_master_key_confirm_received"
+			want["state_signing_await_partial_signs"] = "event_signing_partial_sign_error_received"
+		}
+		best := map[string]string{}
+		score := func(a string) int { // prefer states where only one contribution is missing
+			f := strings.Split(a, ";")
+			s := 0
+			for _, part := range f[3:6] {
+				for _, c := range part {
+					if c == '1' || c == 'b' || c == 'e' || c == 'h' || c == 'k' {
+						s++
+					}
+				}
+			}
+			return s
+		}
+		var all []string
+		for a := range g.States {
+			all = append(all, a)
+		}
+		sort.Strings(all)
+		for _, a := range all {
+			n := absState(a)
+			if _, ok := want[n]; !ok {
+				continue
+			}
+			if b, ok := best[n]; !ok || score(a) > score(b) {
+				best[n] = a
+			}
+		}
+		pre := "2"
+		if cr.Tier == "thorough" {
+			pre = "3"
+		}
+		opts := defaultOpts()
+		opts.MaxPaths = 60000
+		var jobs []Job
+		for _, n := range sortedKeys(best) {
+			jobs = append(jobs, Job{Pkg: nodePkg, Fn: "VF_C14_Pair", Opts: opts, Tag: "state=" + best[n] + " message=" + want[n] + " api=ProcessOperation",
+				Case:   "message=" + want[n] + " api=ProcessOperation",
+				Params: map[string]string{"abs": best[n], "event": want[n], "norange": "1", "maxn": "2", "preemptions": pre, "tag": fmt.Sprintf("c14_%d", len(jobs))}})
+		}
+		res := cr.Pool.Run(jobs)
+		cr.absorb(jobs, res)
+		sched := 0
+		for _, jr := range res {
+			sched += len(jr.Paths)
+		}
+		cr.states = len(jobs)
+		cr.trans = sched
+		cr.samples = append(cr.samples, map[string]interface{}{"pairs": best, "schedules_times_data_paths": sched})
+		cr.groupKey = func(v Violation) string { return v.Label + " @ " + v.Case }
+		cr.explanation = "Two logical threads in the executor: the poller side (real ProcessMessage + SaveOffset for one genuinely signed message with symbolic payload) and the API side (real ProcessOperation submitting the result of a pending operation); context switches at every state-store call and board send, all schedules within the pre-emption bound, sync.Mutex with real mutual exclusion between the threads; the final public state must equal one of the two serial orders; no pending operation lost, no retired operation back."
+		cr.bounds["preemptions"] = pre + " (every schedule within the bound, including which side starts)"
+		cr.bounds["pairs"] = "API request ProcessOperation x board message that completes a phase / opens a batch (quick: 3 message kinds, thorough: 7)"
+		cr.bounds["outside"] = "ApproveParticipation, reinit finish and state reset as the API side; races below the granularity of a state-store call (e.g. Reset swapping the DB handle under SaveOffset); more than one message per tick; n > 2"
+		cr.assume = append(cr.assume, "a context switch can only happen at a state-store call or a board send; sync.Mutex gives mutual exclusion; everything else as in C09")
+		cr.trusted = append(cr.trusted, "gosx SSA->SMT executor with logical threads (engine/sched.go)", "z3 4.8.12")
 	}}
 }
